@@ -86,6 +86,13 @@ def main():
         d = os.path.join(SEEDED, n)
         meta = json.load(open(os.path.join(d, "meta.json")))
         props = [meta["property"]] + meta.get("also", [])
+        if "out_of_scope" in meta:
+            # confirmed by the demo, but it does not break the property as stated and quantified (see meta.json): silence is the right answer
+            results[n] = dict(property=meta["property"], summary=meta.get("summary", ""), repo_head=head, checks={}, detected=None,
+                              out_of_scope=meta["out_of_scope"])
+            json.dump(results, open(results_path, "w"), indent=1, sort_keys=True)
+            print(f"{n:28s} out of scope of the property (see meta.json)")
+            continue
         if "superseded" in meta:
             # the change no longer breaks the property on the current tree (see meta.json); nothing to detect
             results[n] = dict(property=meta["property"], summary=meta.get("summary", ""), repo_head=head, checks={}, detected=None,
